@@ -153,7 +153,12 @@ pub fn step(i: usize, s: &RefState, arg: usize) -> RefState {
     let popped_top = t.at(0);
     t.n -= npop;
     if i == I_DUP {
-        let k = popped_top.unwrap_or(K_ANY);
+        // pickletools pushes two `anyobject`s: the copies are never markobjects, even if the popped item was one
+        // (the kind of a non-mark item is kept: a refinement pickletools does not make)
+        let k = match popped_top {
+            Some(k) if k != K_MARK => k,
+            _ => K_ANY,
+        };
         t.push(k);
         t.push(k);
         return t;
